@@ -368,12 +368,19 @@ def replay(pid, path):
     else:
         res = mod.run_case(rep['tier'], rep['seed'], rep['index'])
     viols = res.get('violations', [])
+    findings = load_findings()
+    unlisted = []
     for v in viols:
-        print(json.dumps(v, indent=1, default=str)[:6000])
-    if viols:
+        m = [e for e in findings if finding_matches(e, pid, v.get('sig', ''))]
+        if m:
+            print(f"KNOWN-FINDING: property={pid} {m[0]['id']}: mechanism {v.get('sig')} (listed in known_findings.json)")
+        else:
+            unlisted.append(v)
+            print(json.dumps(v, indent=1, default=str)[:6000])
+    if unlisted:
         print(f'VIOLATION property={pid} replay={path}')
         return 1
-    print('replay: no violation on the current tree')
+    print('replay: no violation on the current tree' + (' other than listed known findings' if viols else ''))
     return 0
 
 
